@@ -26,6 +26,7 @@ LEVELS = ('debug', 'info', 'warning', 'warn', 'error', 'exception', 'critical', 
 _NEG = {ast.Is: ast.IsNot, ast.IsNot: ast.Is, ast.Eq: ast.NotEq, ast.NotEq: ast.Eq, ast.In: ast.NotIn, ast.NotIn: ast.In}
 _REF = None
 _REFC = None
+PREPASS_RENAME = False      # renaming is a move of the search towards the reference text (see towards)
 
 
 def reference():
@@ -595,7 +596,7 @@ def canonicalise(tree, rel):
                             only_want = [w for w in want if w not in cur]
                             mapping = dict(zip(only_cur, only_want))
                             others = _all_names(ch) - set(cur)
-                            if mapping and not (set(mapping.values()) & others) and len(set(want)) == len(want):
+                            if PREPASS_RENAME and mapping and not (set(mapping.values()) & others) and len(set(want)) == len(want):
                                 # two-step to allow permutations
                                 tmp = dict((c, '__canon_%d__' % i) for i, c in enumerate(mapping))
                                 _rename(ch, tmp)
@@ -607,6 +608,44 @@ def canonicalise(tree, rel):
                     visit(ch, prefix)
         visit(tree, '')
     tree._canon_renamed = renamed
+    refs = reference_src().get(rel, {}) if not os.environ.get('VERIF_NO_TOWARDS') else {}
+    moved = []
+    seen_q = {}
+    if refs:
+        def walk_lists(node, prefix):
+            for fld in ('body', 'orelse', 'finalbody', 'handlers'):
+                lst = getattr(node, fld, None)
+                if not isinstance(lst, list):
+                    continue
+                for k, ch in enumerate(lst):
+                    if isinstance(ch, (ast.FunctionDef, ast.AsyncFunctionDef, ast.ClassDef)):
+                        q = prefix + ch.name
+                        walk_lists(ch, q + '.')
+                        if isinstance(ch, (ast.FunctionDef, ast.AsyncFunctionDef)) and q in refs:
+                            # several definitions may share a name (property getter / setter): the reference lists them in source order
+                            texts = refs[q]
+                            cur_text = ast.unparse(ch)
+                            if cur_text in texts:
+                                continue
+                            k_ = seen_q.get(q, 0)
+                            seen_q[q] = k_ + 1
+                            if len(texts) != 1:
+                                cands_ = [t for t in texts if t.split('(')[0] == cur_text.split('(')[0]]
+                                if len(cands_) != 1:
+                                    continue
+                                ref_text = cands_[0]
+                            else:
+                                ref_text = texts[0]
+                            if cur_text != ref_text:
+                                new, d0, d1 = towards(ch, ref_text)
+                                if new is not ch:
+                                    ast.fix_missing_locations(new)
+                                    lst[k] = new
+                                moved.append((q, d0, d1))
+                    elif isinstance(ch, (ast.If, ast.Try, ast.With, ast.For, ast.While, ast.ExceptHandler)):
+                        walk_lists(ch, prefix)
+        walk_lists(tree, '')
+    tree._canon_moved = moved
     return tree
 
 
@@ -869,3 +908,508 @@ def inline_new_helpers(tree, known):
             if not refs:
                 tree.body.remove(h)
     return count
+
+
+# ---- search towards the reference: semantics-preserving rewrites, kept only when they bring a function textually closer --------
+# to its text in the reference tree (spec/reference_src.json).  Every rewrite below preserves behaviour on its own, so any
+# sequence of them does; the reference only steers the search.  A function whose text reaches the reference text is, for the
+# rules, the function they were written against; where the search stops short the rules simply see the closer spelling.
+
+import difflib as _difflib
+
+_REFS = None
+
+
+def reference_src():
+    global _REFS
+    if _REFS is None:
+        p = os.path.join(os.path.dirname(os.path.dirname(os.path.abspath(__file__))), 'spec', 'reference_src.json')
+        try:
+            with open(p) as f:
+                _REFS = json.load(f)
+        except (IOError, ValueError):
+            _REFS = {}
+    return _REFS
+
+
+def _lines(f):
+    return [l.strip() for l in ast.unparse(f).splitlines()[1:]]
+
+
+def _dist(lines, ref_lines):
+    sm = _difflib.SequenceMatcher(None, lines, ref_lines, autojunk=False)
+    return len(lines) + len(ref_lines) - 2 * sum(b.size for b in sm.get_matching_blocks())
+
+
+def _blocks(f):
+    """every statement list of f's own scope, in a stable order"""
+    out = [f.body]
+    for n in own_nodes(f):
+        for fld in ('body', 'orelse', 'finalbody'):
+            b = getattr(n, fld, None)
+            if isinstance(b, list) and b and isinstance(b[0], ast.stmt) and not isinstance(n, SCOPES):
+                out.append(b)
+    return out
+
+
+def _bare_return(st):
+    return isinstance(st, ast.Return) and (st.value is None or (isinstance(st.value, ast.Constant) and st.value.value is None))
+
+
+def _negate_full(t):
+    t = _copy.deepcopy(t)
+    if isinstance(t, ast.UnaryOp) and isinstance(t.op, ast.Not):
+        return t.operand
+    if isinstance(t, ast.Compare) and len(t.ops) == 1:
+        full = dict(_NEG)
+        full.update({ast.Lt: ast.GtE, ast.GtE: ast.Lt, ast.Gt: ast.LtE, ast.LtE: ast.Gt})
+        if type(t.ops[0]) in full:
+            t.ops = [full[type(t.ops[0])]()]
+            return t
+    return ast.UnaryOp(op=ast.Not(), operand=t)
+
+
+def _name_uses(f, name):
+    return [n for n in ast.walk(f) if isinstance(n, ast.Name) and n.id == name]
+
+
+def _candidates(f, ref_assigns=(), ref_locals=()):
+    """yields (kind, apply) where apply mutates f in place; sites are addressed by position so that they can be replayed on a copy"""
+    blocks = _blocks(f)
+    for bi, b in enumerate(blocks):
+        for i, st in enumerate(b):
+            # R1 nest the rest of a block under the else of a terminating guard
+            if isinstance(st, ast.If) and not st.orelse and _terminates(st.body) and i + 1 < len(b):
+                yield ('nest', bi, i)
+            if isinstance(st, ast.If) and st.orelse:
+                yield ('swap', bi, i)
+                # R3 un-nest: an if/else that ends the function (or a loop body) becomes guard + rest
+                if i == len(b) - 1:
+                    if b is f.body and not _generator(f):
+                        yield ('guard_return', bi, i)
+                        yield ('guard_return_else', bi, i)
+            if isinstance(st, ast.If) and i == len(b) - 1 and b is f.body:
+                for arm in ('body', 'orelse'):
+                    a = getattr(st, arm)
+                    if a and _bare_return(a[-1]):
+                        yield ('drop_return_' + arm, bi, i)
+            if isinstance(st, ast.Assign) and len(st.targets) == 1 and isinstance(st.value, ast.IfExp) and _plain(st.targets[0]):
+                yield ('ifexp_to_stmt', bi, i)
+            if isinstance(st, ast.Return) and isinstance(st.value, ast.IfExp):
+                yield ('ifexp_to_stmt', bi, i)
+            if isinstance(st, ast.If) and st.orelse and len(st.body) == 1 and len(st.orelse) == 1:
+                x, y = st.body[0], st.orelse[0]
+                if isinstance(x, ast.Assign) and isinstance(y, ast.Assign) and len(x.targets) == 1 and len(y.targets) == 1 \
+                        and _plain(x.targets[0]) and ast.dump(x.targets[0]) == ast.dump(y.targets[0]):
+                    yield ('stmt_to_ifexp', bi, i)
+                if isinstance(x, ast.Return) and isinstance(y, ast.Return) and x.value is not None and y.value is not None:
+                    yield ('stmt_to_ifexp', bi, i)
+            # R10 default then override  <->  if/else
+            if isinstance(st, ast.Assign) and len(st.targets) == 1 and isinstance(st.targets[0], ast.Name) and _pure(st.value) and i + 1 < len(b):
+                nx = b[i + 1]
+                t = st.targets[0].id
+                if isinstance(nx, ast.If) and not nx.orelse and nx.body and isinstance(nx.body[-1], ast.Assign) and len(nx.body[-1].targets) == 1 \
+                        and isinstance(nx.body[-1].targets[0], ast.Name) and nx.body[-1].targets[0].id == t \
+                        and not any(isinstance(x, ast.Name) and x.id == t for x in ast.walk(nx.test)) \
+                        and not any(isinstance(x, ast.Name) and x.id == t and isinstance(x.ctx, ast.Load) for s_ in nx.body for x in ast.walk(s_)):
+                    yield ('default_to_else', bi, i)
+            if isinstance(st, ast.If) and st.orelse and len(st.orelse) == 1 and isinstance(st.orelse[0], ast.Assign) and len(st.orelse[0].targets) == 1 \
+                    and isinstance(st.orelse[0].targets[0], ast.Name) and _pure(st.orelse[0].value):
+                t = st.orelse[0].targets[0].id
+                if st.body and isinstance(st.body[-1], ast.Assign) and len(st.body[-1].targets) == 1 and isinstance(st.body[-1].targets[0], ast.Name) \
+                        and st.body[-1].targets[0].id == t and not any(isinstance(x, ast.Name) and x.id == t for x in ast.walk(st.test)) \
+                        and not any(isinstance(x, ast.Name) and x.id == t and isinstance(x.ctx, ast.Load) for s_ in st.body for x in ast.walk(s_)):
+                    yield ('else_to_default', bi, i)
+            # R8 loop <-> comprehension
+            if isinstance(st, ast.Assign) and len(st.targets) == 1 and isinstance(st.targets[0], ast.Name) and i + 1 < len(b):
+                t = st.targets[0].id
+                nx = b[i + 1]
+                if isinstance(st.value, (ast.List, ast.Dict, ast.Set)) and not getattr(st.value, 'elts', getattr(st.value, 'keys', None)) \
+                        or (isinstance(st.value, ast.Call) and isinstance(st.value.func, ast.Name) and st.value.func.id in ('list', 'dict', 'set') and not st.value.args and not st.value.keywords):
+                    if isinstance(nx, ast.For) and not nx.orelse and _comp_body(nx, t) is not None:
+                        yield ('loop_to_comp', bi, i)
+            if isinstance(st, ast.Assign) and len(st.targets) == 1 and isinstance(st.targets[0], ast.Name) \
+                    and isinstance(st.value, (ast.ListComp, ast.SetComp, ast.DictComp)) and len(st.value.generators) == 1 and not st.value.generators[0].is_async:
+                yield ('comp_to_loop', bi, i)
+            # R17 try/else  <->  code after the try
+            if isinstance(st, ast.Try) and not st.finalbody and st.handlers and all(_terminates(h.body) for h in st.handlers):
+                if st.orelse:
+                    yield ('try_else_out', bi, i)
+                elif i + 1 < len(b):
+                    yield ('try_else_in', bi, i)
+            # R14 single-use temporary
+            if isinstance(st, ast.Assign) and len(st.targets) == 1 and isinstance(st.targets[0], ast.Name) and i + 1 < len(b):
+                yield ('inline_temp', bi, i)
+            if isinstance(st, ast.Assign) and len(st.targets) == 1 and isinstance(st.targets[0], ast.Name) and _plain(st.value):
+                yield ('alias', bi, i)
+    # a temporary the reference names and the current text has folded into its use
+    bound = set(ordered_locals(f)) | set(params_of(f))
+    for ri, (name, expr_text) in enumerate(ref_assigns):
+        if name not in bound and not _name_uses(f, name):
+            yield ('extract_ref_temp', ri, 0)
+    # a single-assignment local whose value can be re-evaluated: each use may spell the value out
+    own_ = own_nodes(f)
+    for name in ordered_locals(f):
+        nl = len([n for n in own_ if isinstance(n, ast.Name) and n.id == name and isinstance(n.ctx, ast.Load)])
+        for k_ in range(min(nl, 8)):
+            yield ('fwd_subst', name, k_)
+    # a local the reference does not have may be a renamed reference local
+    cur_l = ordered_locals(f)
+    for c_ in cur_l:
+        if c_ not in ref_locals:
+            for r_ in ref_locals:
+                if r_ not in cur_l and not _name_uses(f, r_):
+                    yield ('rename', c_, r_)
+    k = 0
+    for n in own_nodes(f):
+        if flippable(n):
+            yield ('mirror', k, 0)
+        if isinstance(n, ast.UnaryOp) and isinstance(n.op, ast.Not) and isinstance(n.operand, ast.BoolOp):
+            yield ('demorgan', k, 0)
+        if isinstance(n, ast.BoolOp):
+            yield ('demorgan_rev', k, 0)
+        k += 1
+
+
+def _generator(f):
+    return any(isinstance(n, (ast.Yield, ast.YieldFrom)) for n in own_nodes(f))
+
+
+def _comp_body(loop, t):
+    """(element expr(s), condition or None) when the loop body only adds to t"""
+    body = loop.body
+    cond = None
+    if len(body) == 1 and isinstance(body[0], ast.If) and not body[0].orelse:
+        cond = body[0].test
+        body = body[0].body
+    if len(body) != 1:
+        return None
+    st = body[0]
+    if isinstance(st, ast.Expr) and isinstance(st.value, ast.Call) and isinstance(st.value.func, ast.Attribute) and isinstance(st.value.func.value, ast.Name) \
+            and st.value.func.value.id == t and st.value.func.attr in ('append', 'add') and len(st.value.args) == 1 and not st.value.keywords:
+        res = ('elt', st.value.func.attr, st.value.args[0], cond)
+    elif isinstance(st, ast.Assign) and len(st.targets) == 1 and isinstance(st.targets[0], ast.Subscript) and isinstance(st.targets[0].value, ast.Name) \
+            and st.targets[0].value.id == t:
+        res = ('kv', 'dict', (st.targets[0].slice, st.value), cond)
+    else:
+        return None
+    used = [x for part in ([loop.iter, cond] + list(res[2] if isinstance(res[2], tuple) else [res[2]])) if part is not None for x in ast.walk(part)
+            if isinstance(x, ast.Name) and x.id == t]
+    if used:
+        return None
+    return res
+
+
+def _reevaluable(f, e):
+    """evaluating e again later in f gives the same value and has no effect: constants, parameters / locals that are bound once, and len() of such"""
+    if isinstance(e, ast.Constant):
+        return True
+    if isinstance(e, ast.Name):
+        stores = [n for n in own_nodes(f) if isinstance(n, ast.Name) and n.id == e.id and isinstance(n.ctx, (ast.Store, ast.Del))]
+        return len(stores) == (0 if e.id in params_of(f) else 1)
+    if isinstance(e, ast.Call) and isinstance(e.func, ast.Name) and e.func.id == 'len' and len(e.args) == 1 and not e.keywords and isinstance(e.args[0], ast.Name):
+        x = e.args[0].id
+        if not _reevaluable(f, e.args[0]):
+            return False
+        # the sized object is not mutated in this function: no method call on it, not passed anywhere, no item store
+        for n in own_nodes(f):
+            if isinstance(n, ast.Attribute) and isinstance(n.value, ast.Name) and n.value.id == x:
+                return False
+            if isinstance(n, ast.Subscript) and isinstance(n.value, ast.Name) and n.value.id == x and isinstance(n.ctx, (ast.Store, ast.Del)):
+                return False
+            if isinstance(n, ast.Call) and any(isinstance(a, ast.Name) and a.id == x for a in n.args) and not (isinstance(n.func, ast.Name) and n.func.id in ('len', 'zip', 'enumerate', 'isinstance', 'iter', 'list', 'tuple')):
+                return False
+        return True
+    if isinstance(e, ast.BinOp) and isinstance(e.op, (ast.Add, ast.Sub)):
+        return _reevaluable(f, e.left) and _reevaluable(f, e.right)
+    return False
+
+
+def _apply(f, cand, ref_assigns=()):
+    kind, a, i = cand
+    if kind == 'extract_ref_temp':
+        name, expr_text = ref_assigns[a]
+        for b in _blocks(f):
+            for j, st in enumerate(b):
+                fe = _first_evaluated(st)
+                if fe is None:
+                    continue
+                hits = [x for x in ast.walk(fe) if isinstance(x, ast.expr) and not isinstance(x, ast.Name) and ast.unparse(x) == expr_text]
+                if len(hits) != 1:
+                    continue
+                mark = '__extract_mark__'
+                probe = _copy.deepcopy(fe)
+                # the occurrence must be what the statement evaluates first (so that hoisting it keeps the order of effects)
+                hit_idx = [k for k, x in enumerate(ast.walk(fe)) if x is hits[0]][0]
+                target = list(ast.walk(probe))[hit_idx]
+                _replace_node(ast.Expression(body=probe), target, ast.Name(id=mark, ctx=ast.Load())) if target is not probe else None
+                if target is probe:
+                    probe = ast.Name(id=mark, ctx=ast.Load())
+                if not _load_is_first(probe, mark):
+                    continue
+                new_name = ast.Name(id=name, ctx=ast.Load())
+                if hits[0] is fe:
+                    for fld in ('test', 'value', 'iter', 'exc'):
+                        if getattr(st, fld, None) is fe:
+                            setattr(st, fld, new_name)
+                    if isinstance(st, (ast.With, ast.AsyncWith)) and st.items and st.items[0].context_expr is fe:
+                        st.items[0].context_expr = new_name
+                else:
+                    _replace_node(st, hits[0], new_name)
+                b.insert(j, ast.Assign(targets=[ast.Name(id=name, ctx=ast.Store())], value=hits[0]))
+                return True
+        return False
+    if kind == 'fwd_subst':
+        t = a
+        own = own_nodes(f)
+        stores = [n for n in own if isinstance(n, ast.Name) and n.id == t and isinstance(n.ctx, (ast.Store, ast.Del))]
+        if len(stores) != 1 or t in params_of(f):
+            return False
+        d = None
+        for b in _blocks(f):
+            for st in b:
+                if isinstance(st, ast.Assign) and len(st.targets) == 1 and st.targets[0] is stores[0]:
+                    d = st
+        if d is None or isinstance(d.value, (ast.Name, ast.Constant)) or not _reevaluable(f, d.value):
+            return False
+        nested = any(isinstance(x, ast.Name) and x.id == t for n in ast.walk(f) if n is not f and isinstance(n, SCOPES + COMPS) for x in ast.walk(n))
+        if nested:
+            return False
+        loads = [n for n in own if isinstance(n, ast.Name) and n.id == t and isinstance(n.ctx, ast.Load)]
+        if not loads:
+            return False
+        if i >= len(loads):
+            return False
+        _replace_node(f, loads[i], _copy.deepcopy(d.value))
+        return True
+    if kind == 'rename':
+        if a in params_of(f):
+            return False
+        _rename(f, {a: i})
+        return True
+    if kind in ('mirror', 'demorgan', 'demorgan_rev'):
+        n = own_nodes(f)[a]
+        if kind == 'mirror':
+            m = mirrored(n)
+            n.left, n.ops, n.comparators = m.left, m.ops, m.comparators
+        elif kind == 'demorgan':
+            bo = n.operand
+            new = ast.BoolOp(op=ast.Or() if isinstance(bo.op, ast.And) else ast.And(), values=[_negate_full(v) for v in bo.values])
+            _replace_node(f, n, new)
+        else:
+            new = ast.UnaryOp(op=ast.Not(), operand=ast.BoolOp(op=ast.Or() if isinstance(n.op, ast.And) else ast.And(), values=[_negate_full(v) for v in n.values]))
+            _replace_node(f, n, new)
+        return True
+    b = _blocks(f)[a]
+    st = b[i]
+    if kind == 'nest':
+        st.orelse = b[i + 1:]
+        del b[i + 1:]
+    elif kind == 'swap':
+        st.test = _negate_full(st.test)
+        st.body, st.orelse = st.orelse, st.body
+    elif kind in ('guard_return', 'guard_return_else'):
+        if kind == 'guard_return_else':
+            st.test = _negate_full(st.test)
+            st.body, st.orelse = st.orelse, st.body
+        if not _terminates(st.body):
+            st.body.append(ast.Return(value=None))
+        rest, st.orelse = st.orelse, []
+        b.extend(rest)
+    elif kind.startswith('drop_return_'):
+        arm = getattr(st, kind[len('drop_return_'):])
+        arm.pop()
+        if not arm:
+            arm.append(ast.Pass())
+    elif kind == 'ifexp_to_stmt':
+        e = st.value
+        if isinstance(st, ast.Assign):
+            mk = lambda v: ast.Assign(targets=_copy.deepcopy(st.targets), value=v)
+        else:
+            mk = lambda v: ast.Return(value=v)
+        b[i] = ast.If(test=e.test, body=[mk(e.body)], orelse=[mk(e.orelse)])
+    elif kind == 'stmt_to_ifexp':
+        x, y = st.body[0], st.orelse[0]
+        e = ast.IfExp(test=st.test, body=x.value, orelse=y.value)
+        b[i] = ast.Assign(targets=x.targets, value=e) if isinstance(x, ast.Assign) else ast.Return(value=e)
+    elif kind == 'default_to_else':
+        nx = b[i + 1]
+        nx.orelse = [st]
+        del b[i]
+    elif kind == 'else_to_default':
+        d = st.orelse[0]
+        st.orelse = []
+        b.insert(i, d)
+    elif kind == 'loop_to_comp':
+        t = st.targets[0].id
+        loop = b[i + 1]
+        res = _comp_body(loop, t)
+        if res is None:
+            return False
+        # the loop variable must not be read after the loop (a comprehension does not leak it)
+        tn = set(x.id for x in ast.walk(loop.target) if isinstance(x, ast.Name))
+        after = [x for s_ in b[i + 2:] for x in ast.walk(s_) if isinstance(x, ast.Name) and x.id in tn and isinstance(x.ctx, ast.Load)]
+        if after:
+            return False
+        gen = ast.comprehension(target=loop.target, iter=loop.iter, ifs=[res[3]] if res[3] is not None else [], is_async=0)
+        is_set = isinstance(st.value, ast.Set) or (isinstance(st.value, ast.Call) and st.value.func.id == 'set') or res[1] == 'add'
+        if res[0] == 'kv':
+            comp = ast.DictComp(key=res[2][0], value=res[2][1], generators=[gen])
+        elif is_set:
+            comp = ast.SetComp(elt=res[2], generators=[gen])
+        else:
+            comp = ast.ListComp(elt=res[2], generators=[gen])
+        st.value = comp
+        del b[i + 1]
+    elif kind == 'comp_to_loop':
+        c = st.value
+        g = c.generators[0]
+        t = st.targets[0].id
+        tn = set(x.id for x in ast.walk(g.target) if isinstance(x, ast.Name))
+        # the loop variable becomes a function local: it must not already mean something in this function
+        if any(x.id in tn for x in ast.walk(f) if isinstance(x, ast.Name) and not any(x is y for y in ast.walk(c))):
+            return False
+        if isinstance(c, ast.DictComp):
+            init = ast.Dict(keys=[], values=[])
+            add = ast.Assign(targets=[ast.Subscript(value=ast.Name(id=t, ctx=ast.Load()), slice=c.key, ctx=ast.Store())], value=c.value)
+        elif isinstance(c, ast.SetComp):
+            init = ast.Call(func=ast.Name(id='set', ctx=ast.Load()), args=[], keywords=[])
+            add = ast.Expr(value=ast.Call(func=ast.Attribute(value=ast.Name(id=t, ctx=ast.Load()), attr='add', ctx=ast.Load()), args=[c.elt], keywords=[]))
+        else:
+            init = ast.List(elts=[], ctx=ast.Load())
+            add = ast.Expr(value=ast.Call(func=ast.Attribute(value=ast.Name(id=t, ctx=ast.Load()), attr='append', ctx=ast.Load()), args=[c.elt], keywords=[]))
+        body = [add]
+        for cond in reversed(g.ifs):
+            body = [ast.If(test=cond, body=body, orelse=[])]
+        tgt = _copy.deepcopy(g.target)
+        for x in ast.walk(tgt):
+            if hasattr(x, 'ctx'):
+                x.ctx = ast.Store()
+        b[i:i + 1] = [ast.Assign(targets=st.targets, value=init), ast.For(target=tgt, iter=g.iter, body=body, orelse=[])]
+    elif kind == 'try_else_out':
+        rest, st.orelse = st.orelse, []
+        b[i + 1:i + 1] = rest
+    elif kind == 'try_else_in':
+        st.orelse = b[i + 1:]
+        del b[i + 1:]
+    elif kind == 'inline_temp':
+        t = st.targets[0].id
+        own = own_nodes(f)
+        stores = [n for n in own if isinstance(n, ast.Name) and n.id == t and isinstance(n.ctx, (ast.Store, ast.Del))]
+        loads = [n for n in own if isinstance(n, ast.Name) and n.id == t and isinstance(n.ctx, ast.Load)]
+        nested = any(isinstance(x, ast.Name) and x.id == t for n in ast.walk(f) if n is not f and isinstance(n, SCOPES + COMPS) for x in ast.walk(n))
+        if len(stores) != 1 or len(loads) != 1 or nested or t in params_of(f):
+            return False
+        nxt = b[i + 1]
+        fe = _first_evaluated(nxt)
+        if fe is None or not any(x is loads[0] for x in ast.walk(fe)) or not _load_is_first(fe, t):
+            return False
+        new_fe = _Subst(t, st.value).visit(fe)
+        for fld in ('test', 'value', 'iter', 'exc'):
+            if getattr(nxt, fld, None) is fe:
+                setattr(nxt, fld, new_fe)
+        if isinstance(nxt, (ast.With, ast.AsyncWith)) and nxt.items and nxt.items[0].context_expr is fe:
+            nxt.items[0].context_expr = new_fe
+        del b[i]
+    elif kind == 'alias':
+        t = st.targets[0].id
+        own = own_nodes(f)
+        stores = [n for n in own if isinstance(n, ast.Name) and n.id == t and isinstance(n.ctx, (ast.Store, ast.Del))]
+        nested = any(isinstance(x, ast.Name) and x.id == t for n in ast.walk(f) if n is not f and isinstance(n, SCOPES + COMPS) for x in ast.walk(n))
+        if len(stores) != 1 or nested or t in params_of(f) or b is not f.body:
+            return False
+        # the aliased chain (and its prefixes) is not rebound in this function
+        ch = ast.unparse(st.value)
+        for n in own:
+            if isinstance(n, (ast.Attribute, ast.Name)) and isinstance(getattr(n, 'ctx', None), (ast.Store, ast.Del)):
+                tx = ast.unparse(n)
+                if ch == tx or ch.startswith(tx + '.'):
+                    return False
+        # every read comes after the assignment (same top-level block, later position)
+        pos = i
+        for j, s_ in enumerate(b):
+            if j <= pos and any(isinstance(x, ast.Name) and x.id == t and isinstance(x.ctx, ast.Load) for x in ast.walk(s_)):
+                return False
+        val = st.value
+        del b[i]
+
+        class A(ast.NodeTransformer):
+            def visit_Name(s, n):
+                if n.id == t and isinstance(n.ctx, ast.Load):
+                    return _copy.deepcopy(val)
+                return n
+        A().visit(f)
+    else:
+        return False
+    return True
+
+
+def _replace_node(f, old, new):
+    class T(ast.NodeTransformer):
+        def generic_visit(s, node):
+            for fld, v in ast.iter_fields(node):
+                if isinstance(v, list):
+                    for k, x in enumerate(v):
+                        if x is old:
+                            v[k] = new
+                        elif isinstance(x, ast.AST):
+                            s.generic_visit(x)
+                elif v is old:
+                    setattr(node, fld, new)
+                elif isinstance(v, ast.AST):
+                    s.generic_visit(v)
+            return node
+    T().generic_visit(f)
+
+
+def towards(f, ref_text, budget=400):
+    """best-first search over rewrite sequences; returns the closest function found (possibly f itself)"""
+    ref_lines = [l.strip() for l in ref_text.splitlines()[1:]]
+    ref_assigns = []
+    try:
+        rf = ast.parse(ref_text).body[0]
+        for n in own_nodes(rf):
+            if isinstance(n, ast.Assign) and len(n.targets) == 1 and isinstance(n.targets[0], ast.Name) and not isinstance(n.value, (ast.Name, ast.Constant)):
+                ref_assigns.append((n.targets[0].id, ast.unparse(n.value)))
+        ref_locals = ordered_locals(rf)
+    except SyntaxError:
+        ref_locals = []
+    start = _lines(f)
+    d0 = _dist(start, ref_lines)
+    if d0 == 0:
+        return f, 0, 0
+    best, best_d = f, d0
+    seen = set(['\n'.join(start)])
+    frontier = [(d0, 0, f)]
+    tick = 0
+    spent = 0
+    while frontier and spent < budget and best_d > 0:
+        frontier.sort(key=lambda x: (x[0], x[1]))
+        d, _t, cur = frontier.pop(0)
+        if d > best_d + 6:
+            break
+        for cand in list(_candidates(cur, ref_assigns, ref_locals)):
+            if spent >= budget:
+                break
+            g = _copy.deepcopy(cur)
+            try:
+                if not _apply(g, cand, ref_assigns):
+                    continue
+                ast.fix_missing_locations(g)
+                ls = _lines(g)
+            except Exception:
+                continue
+            spent += 1
+            key = '\n'.join(ls)
+            if key in seen:
+                continue
+            seen.add(key)
+            dg = _dist(ls, ref_lines)
+            if dg < best_d:
+                best, best_d = g, dg
+                if dg == 0:
+                    break
+            if dg <= d + 2:
+                tick += 1
+                frontier.append((dg, tick, g))
+    return best, d0, best_d
